@@ -2,42 +2,47 @@
 
    Reading guide (definitions are in Model/C04Model.v):
      struct            = (tree, Tree._is_rooted)
-     fpfn/rf/missing/wrf/euclid_sq acc s1 s2
+     fpfn/rf/missing mg acc s1 s2, wrf/euclid_sq mg p acc s1 s2
                        = false_positives_and_negatives / symmetric_difference / find_missing_bipartitions /
                          weighted_robinson_foulds_distance / euclidean_distance^2 called with default
                          arguments on two freshly built trees with structures s1, s2 over one namespace
                          whose taxon -> accession index map is acc
                          (theorem default_args_fresh: the same calls in ANY state of ANY world compute exactly these)
-     splits acc s      = split masks of the list encode_bipartitions() stores (post-order, duplicates possible)
-     entries acc s     = the same list with (edge length, is seed edge) attached
-     split_len acc s m = length of the first edge with split m; absent or None = 0
+     splits mg acc s   = split masks of the list encode_bipartitions() stores (post-order, duplicates possible)
+     entries mg acc s  = the same list with (edge length, is seed edge) attached
+     split_len mg acc s m = length of the first edge with split m; absent or None = 0
      well_formed acc s = leaf taxa are members of the namespace, at least one leaf has a taxon,
-                         node identities are distinct
+                         node identities are distinct (a boolean check on the tree as given)
+     redraw t t'       = t' is t with the children of any nodes reordered (Proofs/C04Core.v: reflexive-
+                         transitive closure of "permute the children of one node")
      policy            = Current (the code as it stands) | ZeroBoth | RefuseBoth (the two repairs of F8)
+     mg                = false: collapse_basal_bifurcation() as it stands (drops the removed seed edge's
+                         length when the kept edge has none); true: repaired (the length is taken over).
+                         Every theorem below holds for both forms.
      lengths in units of 2^-10; euclidean_distance = sqrt(euclid_sq) * 2^-10 (the square root and
      binary64 rounding are outside the model, so euclid_is_L2 and euclid_triangle are stated on the
      exact radicands, the triangle inequality in its square-root-free form). *)
 From Coq Require Import ZArith List Bool Relations.
-From DV Require Import Model.PyPrims Model.Tree Model.C04Model Proofs.C04Redraw Proofs.C04Witness Proofs.C04Final.
+From DV Require Import Model.PyPrims Model.Tree Model.C04Model Proofs.C04Core Proofs.C04Witness.
 Import ListNotations.
 Open Scope Z_scope.
 
 (* symmetric_difference = |S1 \ S2| + |S2 \ S1| for ANY duplicate-free enumerations S1, S2 of the two split sets *)
-Theorem rf_is_symdiff_card : forall acc s1 s2 S1 S2,
+Theorem rf_is_symdiff_card : forall mg acc s1 s2 S1 S2,
   well_formed acc s1 = true -> well_formed acc s2 = true ->
   NoDup S1 -> NoDup S2 ->
-  (forall m, In m S1 <-> In m (splits acc s1)) -> (forall m, In m S2 <-> In m (splits acc s2)) ->
-  rf acc s1 s2 = Ok (Z.of_nat (length (filter (fun m => negb (memz m S2)) S1))
+  (forall m, In m S1 <-> In m (splits mg acc s1)) -> (forall m, In m S2 <-> In m (splits mg acc s2)) ->
+  rf mg acc s1 s2 = Ok (Z.of_nat (length (filter (fun m => negb (memz m S2)) S1))
                      + Z.of_nat (length (filter (fun m => negb (memz m S1)) S2))).
 Proof. exact F_rf_is_symdiff_card. Qed.
 Print Assumptions rf_is_symdiff_card.
 
 (* false positives = |S2 \ S1| (in the comparison tree only), false negatives = |S1 \ S2| *)
-Theorem fp_fn_are_one_sided : forall acc s1 s2 S1 S2,
+Theorem fp_fn_are_one_sided : forall mg acc s1 s2 S1 S2,
   well_formed acc s1 = true -> well_formed acc s2 = true ->
   NoDup S1 -> NoDup S2 ->
-  (forall m, In m S1 <-> In m (splits acc s1)) -> (forall m, In m S2 <-> In m (splits acc s2)) ->
-  fpfn acc s1 s2 = Ok (Z.of_nat (length (filter (fun m => negb (memz m S1)) S2)),
+  (forall m, In m S1 <-> In m (splits mg acc s1)) -> (forall m, In m S2 <-> In m (splits mg acc s2)) ->
+  fpfn mg acc s1 s2 = Ok (Z.of_nat (length (filter (fun m => negb (memz m S1)) S2)),
                       Z.of_nat (length (filter (fun m => negb (memz m S2)) S1))).
 Proof. exact F_fp_fn_are_one_sided. Qed.
 Print Assumptions fp_fn_are_one_sided.
@@ -46,76 +51,76 @@ Print Assumptions fp_fn_are_one_sided.
    duplicate-free superset U of the two split sets, absent = 0, None = 0 - provided no two edges of
    one tree carry the same split (false only for not-rooted trees whose seed keeps two children,
    see zero_on_redrawing_refuted) *)
-Theorem wrf_is_L1 : forall p acc s1 s2 v U,
+Theorem wrf_is_L1 : forall mg p acc s1 s2 v U,
   well_formed acc s1 = true -> well_formed acc s2 = true ->
-  NoDup (splits acc s1) -> NoDup (splits acc s2) ->
-  wrf p acc s1 s2 = Ok v ->
-  NoDup U -> incl (splits acc s1) U -> incl (splits acc s2) U ->
-  v = fold_right Z.add 0 (map (fun m => Z.abs (split_len acc s1 m - split_len acc s2 m)) U).
+  NoDup (splits mg acc s1) -> NoDup (splits mg acc s2) ->
+  wrf mg p acc s1 s2 = Ok v ->
+  NoDup U -> incl (splits mg acc s1) U -> incl (splits mg acc s2) U ->
+  v = fold_right Z.add 0 (map (fun m => Z.abs (split_len mg acc s1 m - split_len mg acc s2 m)) U).
 Proof. exact F_wrf_is_L1. Qed.
 Print Assumptions wrf_is_L1.
 
 (* euclidean_distance^2 is the squared L2 norm of the same differences *)
-Theorem euclid_is_L2 : forall p acc s1 s2 v U,
+Theorem euclid_is_L2 : forall mg p acc s1 s2 v U,
   well_formed acc s1 = true -> well_formed acc s2 = true ->
-  NoDup (splits acc s1) -> NoDup (splits acc s2) ->
-  euclid_sq p acc s1 s2 = Ok v ->
-  NoDup U -> incl (splits acc s1) U -> incl (splits acc s2) U ->
+  NoDup (splits mg acc s1) -> NoDup (splits mg acc s2) ->
+  euclid_sq mg p acc s1 s2 = Ok v ->
+  NoDup U -> incl (splits mg acc s1) U -> incl (splits mg acc s2) U ->
   v = fold_right Z.add 0
-        (map (fun m => (split_len acc s1 m - split_len acc s2 m) * (split_len acc s1 m - split_len acc s2 m)) U).
+        (map (fun m => (split_len mg acc s1 m - split_len mg acc s2 m) * (split_len mg acc s1 m - split_len mg acc s2 m)) U).
 Proof. exact F_euclid_is_L2. Qed.
 Print Assumptions euclid_is_L2.
 
 (* ---- metric axioms (no assumption about colliding splits) ---- *)
 
-Theorem rf_zero_self : forall acc s,
-  well_formed acc s = true -> rf acc s s = Ok 0 /\ fpfn acc s s = Ok (0, 0).
+Theorem rf_zero_self : forall mg acc s,
+  well_formed acc s = true -> rf mg acc s s = Ok 0 /\ fpfn mg acc s s = Ok (0, 0).
 Proof. exact F_rf_zero_self. Qed.
 Print Assumptions rf_zero_self.
 
-Theorem weighted_zero_self : forall p acc s v,
+Theorem weighted_zero_self : forall mg p acc s v,
   well_formed acc s = true ->
-  (wrf p acc s s = Ok v -> v = 0) /\ (euclid_sq p acc s s = Ok v -> v = 0).
+  (wrf mg p acc s s = Ok v -> v = 0) /\ (euclid_sq mg p acc s s = Ok v -> v = 0).
 Proof. exact F_self_weighted_zero. Qed.
 Print Assumptions weighted_zero_self.
 
-Theorem rf_sym : forall acc s1 s2,
+Theorem rf_sym : forall mg acc s1 s2,
   well_formed acc s1 = true -> well_formed acc s2 = true ->
-  rf acc s1 s2 = rf acc s2 s1 /\ exists d, rf acc s1 s2 = Ok d /\ 0 <= d.
+  rf mg acc s1 s2 = rf mg acc s2 s1 /\ exists d, rf mg acc s1 s2 = Ok d /\ 0 <= d.
 Proof. exact F_rf_sym. Qed.
 Print Assumptions rf_sym.
 
-Theorem rf_triangle : forall acc s1 s2 s3 d13 d12 d23,
+Theorem rf_triangle : forall mg acc s1 s2 s3 d13 d12 d23,
   well_formed acc s1 = true -> well_formed acc s2 = true -> well_formed acc s3 = true ->
-  rf acc s1 s3 = Ok d13 -> rf acc s1 s2 = Ok d12 -> rf acc s2 s3 = Ok d23 ->
+  rf mg acc s1 s3 = Ok d13 -> rf mg acc s1 s2 = Ok d12 -> rf mg acc s2 s3 = Ok d23 ->
   d13 <= d12 + d23.
 Proof. exact F_rf_triangle. Qed.
 Print Assumptions rf_triangle.
 
-Theorem wrf_sym : forall p acc s1 s2 v v',
+Theorem wrf_sym : forall mg p acc s1 s2 v v',
   well_formed acc s1 = true -> well_formed acc s2 = true ->
-  wrf p acc s1 s2 = Ok v -> wrf p acc s2 s1 = Ok v' -> v = v'.
+  wrf mg p acc s1 s2 = Ok v -> wrf mg p acc s2 s1 = Ok v' -> v = v'.
 Proof. exact F_wrf_sym. Qed.
 Print Assumptions wrf_sym.
 
-Theorem wrf_triangle : forall p acc s1 s2 s3 d13 d12 d23,
+Theorem wrf_triangle : forall mg p acc s1 s2 s3 d13 d12 d23,
   well_formed acc s1 = true -> well_formed acc s2 = true -> well_formed acc s3 = true ->
-  wrf p acc s1 s3 = Ok d13 -> wrf p acc s1 s2 = Ok d12 -> wrf p acc s2 s3 = Ok d23 ->
+  wrf mg p acc s1 s3 = Ok d13 -> wrf mg p acc s1 s2 = Ok d12 -> wrf mg p acc s2 s3 = Ok d23 ->
   d13 <= d12 + d23.
 Proof. exact F_wrf_triangle. Qed.
 Print Assumptions wrf_triangle.
 
-Theorem euclid_sq_sym : forall p acc s1 s2 v v',
+Theorem euclid_sq_sym : forall mg p acc s1 s2 v v',
   well_formed acc s1 = true -> well_formed acc s2 = true ->
-  euclid_sq p acc s1 s2 = Ok v -> euclid_sq p acc s2 s1 = Ok v' -> v = v'.
+  euclid_sq mg p acc s1 s2 = Ok v -> euclid_sq mg p acc s2 s1 = Ok v' -> v = v'.
 Proof. exact F_euclid_sq_sym. Qed.
 Print Assumptions euclid_sq_sym.
 
 (* sqrt d13 <= sqrt d12 + sqrt d23, written without square roots:
    for non-negative reals, sqrt A <= sqrt B + sqrt C  <=>  A - B - C <= 0 \/ (A - B - C)^2 <= 4 B C *)
-Theorem euclid_triangle : forall p acc s1 s2 s3 d13 d12 d23,
+Theorem euclid_triangle : forall mg p acc s1 s2 s3 d13 d12 d23,
   well_formed acc s1 = true -> well_formed acc s2 = true -> well_formed acc s3 = true ->
-  euclid_sq p acc s1 s3 = Ok d13 -> euclid_sq p acc s1 s2 = Ok d12 -> euclid_sq p acc s2 s3 = Ok d23 ->
+  euclid_sq mg p acc s1 s3 = Ok d13 -> euclid_sq mg p acc s1 s2 = Ok d12 -> euclid_sq mg p acc s2 s3 = Ok d23 ->
   0 <= d13 /\ 0 <= d12 /\ 0 <= d23 /\
   (d13 - d12 - d23 <= 0 \/ (d13 - d12 - d23) * (d13 - d12 - d23) <= 4 * d12 * d23).
 Proof. exact F_euclid_triangle. Qed.
@@ -127,88 +132,101 @@ Print Assumptions euclid_triangle.
      forall acc r t t', redraw t t' -> well_formed acc (t, r) = true ->
        every function returns the same on (t, r) and (t', r) against every well-formed s2, in both
        argument positions; in particular the distances between (t, r) and (t', r) are 0.
-   PROVED: the statement for every re-drawing (children reordered at any set of nodes) of a tree
-   whose basal bifurcation encode_bipartitions() does not collapse (rooted, or the seed does not have
-   exactly two children) and in which no two edges carry the same split.
-   MISSING: not-rooted trees whose seed has exactly two children - there the statement is false for
-   the weighted distances on the current code, see the two refutations; for the unweighted functions
-   on such trees the model has no counter-example, but the proof needs the bit-level fact that the two
-   seed-child leafsets normalise to the same split mask, which is not proved here. *)
-Theorem child_order_invariant_partial : forall acc r t t',
+   PROVED: the statement for every re-drawing (children reordered at any set of nodes, the seed's
+   included), both rooting states, under two conditions:
+     - no two edges of the tree carry the same split (NoDup (splits ...)): fails exactly for not-rooted
+       trees whose seed keeps two children after encode_bipartitions(), where the statement is FALSE for
+       the weighted distances (zero_on_redrawing_refuted);
+     - if the tree is not rooted and its seed has exactly two children, both internal, then their two
+       edge lengths are both present or both missing - without this the statement is FALSE for the code
+       as it stands (mg = false), child_order_invariant_refuted; no such condition for the repaired
+       form (mg = true) - and their leafset masks are disjoint.
+   MISSING: disjointness of the two seed-child leafsets and duplicate-freeness of the splits are
+   hypotheses here; they follow from "the leaves carry distinct taxa" by the bit-level theory of the
+   encoding (property C01), which this development does not import.  Moving the seed of an unrooted
+   tree (reseed_at) is not modelled: it is covered by the correspondence and the oracle only. *)
+Theorem child_order_invariant_partial : forall mg acc r t t',
   redraw t t' ->
-  (r = Some true \/ length (t_kids t) <> 2%nat) ->
-  well_formed acc (t, r) = true -> NoDup (splits acc (t, r)) ->
+  well_formed acc (t, r) = true -> NoDup (splits mg acc (t, r)) ->
+  (r <> Some true -> forall c0 c1, t_kids t = [c0; c1] ->
+     (2 <= length (t_kids c0))%nat -> (2 <= length (t_kids c1))%nat ->
+     (mg = true \/ (t_len c0 = None <-> t_len c1 = None)) /\ Z.land (lmask acc c0) (lmask acc c1) = 0) ->
   forall p s2, well_formed acc s2 = true ->
-    fpfn acc (t, r) s2 = fpfn acc (t', r) s2 /\ fpfn acc s2 (t, r) = fpfn acc s2 (t', r) /\
-    rf acc (t, r) s2 = rf acc (t', r) s2 /\ rf acc s2 (t, r) = rf acc s2 (t', r) /\
-    wrf p acc (t, r) s2 = wrf p acc (t', r) s2 /\ wrf p acc s2 (t, r) = wrf p acc s2 (t', r) /\
-    euclid_sq p acc (t, r) s2 = euclid_sq p acc (t', r) s2 /\ euclid_sq p acc s2 (t, r) = euclid_sq p acc s2 (t', r).
+    fpfn mg acc (t, r) s2 = fpfn mg acc (t', r) s2 /\ fpfn mg acc s2 (t, r) = fpfn mg acc s2 (t', r) /\
+    rf mg acc (t, r) s2 = rf mg acc (t', r) s2 /\ rf mg acc s2 (t, r) = rf mg acc s2 (t', r) /\
+    wrf mg p acc (t, r) s2 = wrf mg p acc (t', r) s2 /\ wrf mg p acc s2 (t, r) = wrf mg p acc s2 (t', r) /\
+    euclid_sq mg p acc (t, r) s2 = euclid_sq mg p acc (t', r) s2 /\ euclid_sq mg p acc s2 (t, r) = euclid_sq mg p acc s2 (t', r).
 Proof. exact F_child_order_invariant. Qed.
 Print Assumptions child_order_invariant_partial.
 
-Theorem zero_on_redrawing_partial : forall p acc r t t',
+Theorem zero_on_redrawing_partial : forall mg p acc r t t',
   redraw t t' ->
-  (r = Some true \/ length (t_kids t) <> 2%nat) ->
-  well_formed acc (t, r) = true -> NoDup (splits acc (t, r)) ->
-  rf acc (t, r) (t', r) = Ok 0 /\
-  fpfn acc (t, r) (t', r) = Ok (0, 0) /\
-  (forall v, wrf p acc (t, r) (t', r) = Ok v -> v = 0) /\
-  (forall v, euclid_sq p acc (t, r) (t', r) = Ok v -> v = 0).
+  well_formed acc (t, r) = true -> NoDup (splits mg acc (t, r)) ->
+  (r <> Some true -> forall c0 c1, t_kids t = [c0; c1] ->
+     (2 <= length (t_kids c0))%nat -> (2 <= length (t_kids c1))%nat ->
+     (mg = true \/ (t_len c0 = None <-> t_len c1 = None)) /\ Z.land (lmask acc c0) (lmask acc c1) = 0) ->
+  rf mg acc (t, r) (t', r) = Ok 0 /\
+  fpfn mg acc (t, r) (t', r) = Ok (0, 0) /\
+  (forall v, wrf mg p acc (t, r) (t', r) = Ok v -> v = 0) /\
+  (forall v, euclid_sq mg p acc (t, r) (t', r) = Ok v -> v = 0).
 Proof. exact F_zero_on_redrawing. Qed.
 Print Assumptions zero_on_redrawing_partial.
 
 (* DEFECT (key weighted-distance-root-adjacent-edge-collision): a not-rooted tree whose seed keeps two
    children after encode_bipartitions() - here (((A:1,B:1):1):1,C:5) - has two edges with one split;
-   only the last one's length is used, so the tree is at weighted distance 3.0 from its own re-drawing *)
-Theorem zero_on_redrawing_refuted :
-  exists p acc r t t',
+   only the last one's length is used, so the tree is at weighted distance 3.0 from its own re-drawing
+   (for every missing-length policy and both forms of the basal collapse) *)
+Theorem zero_on_redrawing_refuted : forall mg p,
+  exists acc r t t',
     redraw t t' /\ well_formed acc (t, r) = true /\ well_formed acc (t', r) = true /\
-    rf acc (t, r) (t', r) = Ok 0 /\ wrf p acc (t, r) (t', r) = Ok 3072 /\ euclid_sq p acc (t, r) (t', r) = Ok 9437184.
+    rf mg acc (t, r) (t', r) = Ok 0 /\ wrf mg p acc (t, r) (t', r) = Ok 3072 /\ euclid_sq mg p acc (t, r) (t', r) = Ok 9437184.
 Proof. exact zero_on_redrawing_refuted_l. Qed.
 Print Assumptions zero_on_redrawing_refuted.
 
-(* DEFECT (key basal-collapse-drops-length-onto-missing): collapse_basal_bifurcation() drops the length
-   of the removed seed edge when the kept one has none: ((A:1,B:1),(C:1,D:1):1) is at weighted
-   distance 1.0 from the same tree with the seed's children exchanged (no split collision here) *)
+(* DEFECT (key basal-collapse-drops-length-onto-missing): collapse_basal_bifurcation() as it stands
+   (mg = false) drops the length of the removed seed edge when the kept one has none:
+   ((A:1,B:1),(C:1,D:1):1) is at weighted distance 1.0 from the same tree with the seed's children
+   exchanged (no split collision here); 0 with the repaired form (mg = true) *)
 Theorem child_order_invariant_refuted :
   exists p acc r t t',
     redraw t t' /\ well_formed acc (t, r) = true /\ well_formed acc (t', r) = true /\
-    nodupb (splits acc (t, r)) = true /\ nodupb (splits acc (t', r)) = true /\
-    rf acc (t, r) (t', r) = Ok 0 /\ wrf p acc (t, r) (t', r) = Ok 1024.
+    nodupb (splits false acc (t, r)) = true /\ nodupb (splits false acc (t', r)) = true /\
+    rf false acc (t, r) (t', r) = Ok 0 /\ wrf false p acc (t, r) (t', r) = Ok 1024 /\
+    wrf true p acc (t, r) (t', r) = Ok 0.
 Proof. exact child_order_invariant_refuted_l. Qed.
 Print Assumptions child_order_invariant_refuted.
 
 (* ---- definedness ---- *)
 
-(* FULL STATEMENT: forall p ..., wrf p acc s1 s2 returns iff wrf p acc s2 s1 returns.
+(* FULL STATEMENT: forall p ..., wrf mg p acc s1 s2 returns iff wrf mg p acc s2 s1 returns.
    DEFECT F8 (key wrf-definedness-asymmetric): false for the current code - (A,B,C) without lengths
    against (A:1,B:1,C:1): 3.0 one way, ValueError the other way. *)
-Theorem defined_sym_refuted :
+Theorem defined_sym_refuted : forall mg,
   exists acc s1 s2,
     well_formed acc s1 = true /\ well_formed acc s2 = true /\
-    wrf Current acc s1 s2 = Ok 3072 /\ wrf Current acc s2 s1 = Err ValueErr /\
-    euclid_sq Current acc s1 s2 = Ok 3145728 /\ euclid_sq Current acc s2 s1 = Err ValueErr.
+    wrf mg Current acc s1 s2 = Ok 3072 /\ wrf mg Current acc s2 s1 = Err ValueErr /\
+    euclid_sq mg Current acc s1 s2 = Ok 3145728 /\ euclid_sq mg Current acc s2 s1 = Err ValueErr.
 Proof. exact defined_sym_refuted_l. Qed.
 Print Assumptions defined_sym_refuted.
 
 (* what the current code does: it refuses exactly when some split of the FIRST tree is carried in the
    SECOND tree by an edge that has no length and is not the seed edge *)
-Theorem refusal_current : forall acc s1 s2,
+Theorem refusal_current : forall mg acc s1 s2,
   well_formed acc s1 = true -> well_formed acc s2 = true ->
-  NoDup (splits acc s2) ->
-  ((exists v, wrf Current acc s1 s2 = Ok v) <->
-   (forall m x, In (m, x) (entries acc s2) -> In m (splits acc s1) -> fst x = None -> snd x = true)).
+  NoDup (splits mg acc s2) ->
+  ((exists v, wrf mg Current acc s1 s2 = Ok v) <->
+   (forall m x, In (m, x) (entries mg acc s2) -> In m (splits mg acc s1) -> fst x = None -> snd x = true)).
 Proof. exact F_refusal_current. Qed.
 Print Assumptions refusal_current.
 
 (* with either repair (missing length = 0 on both trees / refused on both trees) definedness is
    symmetric, and the only exception is ValueError *)
-Theorem defined_sym : forall p acc s1 s2,
+Theorem defined_sym : forall mg p acc s1 s2,
   p <> Current ->
   well_formed acc s1 = true -> well_formed acc s2 = true ->
-  ((exists v, wrf p acc s1 s2 = Ok v) <-> (exists v, wrf p acc s2 s1 = Ok v)) /\
-  ((exists v, euclid_sq p acc s1 s2 = Ok v) <-> (exists v, euclid_sq p acc s2 s1 = Ok v)) /\
-  ((exists v, wrf p acc s1 s2 = Ok v) \/ wrf p acc s1 s2 = Err ValueErr).
+  ((exists v, wrf mg p acc s1 s2 = Ok v) <-> (exists v, wrf mg p acc s2 s1 = Ok v)) /\
+  ((exists v, euclid_sq mg p acc s1 s2 = Ok v) <-> (exists v, euclid_sq mg p acc s2 s1 = Ok v)) /\
+  ((exists v, wrf mg p acc s1 s2 = Ok v) \/ wrf mg p acc s1 s2 = Err ValueErr).
 Proof. exact F_defined_sym. Qed.
 Print Assumptions defined_sym.
 
@@ -218,37 +236,37 @@ Print Assumptions defined_sym.
    bipartitions and detached nodes earlier calls and edits left behind) each function returns what it
    returns on two fresh trees with the CURRENT structures, leaves both trees normalised and touches
    no other tree. *)
-Theorem default_args_fresh : forall p w a b sa sb,
+Theorem default_args_fresh : forall mg p w a b sa sb,
   a <> b -> get_t w a = Ok sa -> get_t w b = Ok sb -> ts_ns sa = ts_ns sb ->
   well_formed (w_acc w) (ts_struct sa) = true -> well_formed (w_acc w) (ts_struct sb) = true ->
-  fst (do_fpfn w a b false) = fpfn (w_acc w) (ts_struct sa) (ts_struct sb) /\
-  fst (do_symdiff w a b false) = rf (w_acc w) (ts_struct sa) (ts_struct sb) /\
-  fst (do_missing w a b false) = missing (w_acc w) (ts_struct sa) (ts_struct sb) /\
-  fst (do_wrf p w a b false) = wrf p (w_acc w) (ts_struct sa) (ts_struct sb) /\
-  fst (do_euclid_sq p w a b false) = euclid_sq p (w_acc w) (ts_struct sa) (ts_struct sb) /\
-  (forall w', w' = snd (do_fpfn w a b false) \/ w' = snd (do_symdiff w a b false) \/ w' = snd (do_missing w a b false)
-              \/ w' = snd (do_wrf p w a b false) \/ w' = snd (do_euclid_sq p w a b false) ->
+  fst (do_fpfn mg w a b false) = fpfn mg (w_acc w) (ts_struct sa) (ts_struct sb) /\
+  fst (do_symdiff mg w a b false) = rf mg (w_acc w) (ts_struct sa) (ts_struct sb) /\
+  fst (do_missing mg w a b false) = missing mg (w_acc w) (ts_struct sa) (ts_struct sb) /\
+  fst (do_wrf mg p w a b false) = wrf mg p (w_acc w) (ts_struct sa) (ts_struct sb) /\
+  fst (do_euclid_sq mg p w a b false) = euclid_sq mg p (w_acc w) (ts_struct sa) (ts_struct sb) /\
+  (forall w', w' = snd (do_fpfn mg w a b false) \/ w' = snd (do_symdiff mg w a b false) \/ w' = snd (do_missing mg w a b false)
+              \/ w' = snd (do_wrf mg p w a b false) \/ w' = snd (do_euclid_sq mg p w a b false) ->
      (exists sa' sb', get_t w' a = Ok sa' /\ get_t w' b = Ok sb' /\
-        ts_struct sa' = normalise (ts_struct sa) /\ ts_struct sb' = normalise (ts_struct sb)) /\
+        ts_struct sa' = normalise mg (ts_struct sa) /\ ts_struct sb' = normalise mg (ts_struct sb)) /\
      (forall c, c <> a -> c <> b -> get_t w' c = get_t w c)).
 Proof. exact F_default_args_fresh. Qed.
 Print Assumptions default_args_fresh.
 
 (* trees over different namespaces: every function raises TaxonNamespaceIdentityError (a ValueError)
    for both values of the flag, before touching anything *)
-Theorem namespace_mismatch_refused : forall p w a b sa sb upd,
+Theorem namespace_mismatch_refused : forall mg p w a b sa sb upd,
   get_t w a = Ok sa -> get_t w b = Ok sb -> ts_ns sa <> ts_ns sb ->
-  do_fpfn w a b upd = (Err ValueErr, w) /\
-  do_symdiff w a b upd = (Err ValueErr, w) /\
-  do_missing w a b upd = (Err ValueErr, w) /\
-  do_wrf p w a b upd = (Err ValueErr, w) /\
-  do_euclid_sq p w a b upd = (Err ValueErr, w).
+  do_fpfn mg w a b upd = (Err ValueErr, w) /\
+  do_symdiff mg w a b upd = (Err ValueErr, w) /\
+  do_missing mg w a b upd = (Err ValueErr, w) /\
+  do_wrf mg p w a b upd = (Err ValueErr, w) /\
+  do_euclid_sq mg p w a b upd = (Err ValueErr, w).
 Proof. exact F_namespace_mismatch. Qed.
 Print Assumptions namespace_mismatch_refused.
 
 (* interface: the list encode_bipartitions() returns is `splits` of the current structure *)
-Theorem encode_is_splits : forall w a st,
+Theorem encode_is_splits : forall mg w a st,
   get_t w a = Ok st -> taxa_known (w_acc w) (ts_tree st) = true ->
-  fst (step Current w (OpEncode a)) = OMasks (splits (w_acc w) (ts_struct st)).
+  fst (step mg Current w (OpEncode a)) = OMasks (splits mg (w_acc w) (ts_struct st)).
 Proof. exact F_encode_is_splits. Qed.
 Print Assumptions encode_is_splits.
